@@ -7,6 +7,24 @@ from vt.harness import C01
 
 TERMINAL = ('SUCCESS', 'ERROR', 'CANCELLED')
 
+# the 'pause' engine command leaves commands in the backlog (t2) while
+# another branch (tb) is still running
+PAUSE_CMD_BRANCH = """
+version: '2.0'
+wf:
+  tasks:
+    t1:
+      action: std.noop
+      on-success: [pause, t2]
+    tb:
+      action: std.noop
+      on-success: t3
+    t2:
+      action: std.noop
+    t3:
+      action: std.noop
+"""
+
 
 def _c11_case(shape, text, preemptions, max_step, wf_name='wf',
               pause_first=False, target='root'):
@@ -42,6 +60,8 @@ def _c11_case(shape, text, preemptions, max_step, wf_name='wf',
                 r, errs = ex_.operator('stop_workflow', vid, state, 'MSG')
                 after = w_.wf_ex(vid)
                 st['vid'] = vid
+                if (before['runtime_context'] or {}).get('backlog_commands'):
+                    reach('stopped-while-backlog')
                 st['tasks'] = {t['id'] for t in w_.rows('TaskExecution')}
                 st['row'] = dict(after)
                 reach('stopped')
@@ -149,7 +169,9 @@ def _c11_case(shape, text, preemptions, max_step, wf_name='wf',
                'mistral.engine.task_handler:_refresh_task_state',
                'mistral.engine.workflow_handler:check_and_complete',
                'mistral.engine.tasks:Task.complete'],
-    bounds={'quick': 'shapes fork_join, chain, parent+child sub-workflow '
+    bounds={'quick': 'shapes fork_join, chain, two branches with the pause '
+                     'engine command (commands waiting in the backlog when '
+                     'the stop arrives), parent+child sub-workflow '
                      '(stop on the root or on the child); stop state '
                      'symbolic in {SUCCESS, ERROR, CANCELLED}; stop position '
                      'symbolic over the first 10 deliveries; optionally '
@@ -175,6 +197,9 @@ def c11_e(ctx):
     yield Case('chain/paused-first',
                _c11_case('chain', shapes.CHAIN, k, ms, pause_first=True),
                needed=['paused-then-stopped', 'quiescent'])
+    yield Case('pause_cmd_branch',
+               _c11_case('pause_cmd_branch', PAUSE_CMD_BRANCH, max(k, 1), ms),
+               needed=['stopped', 'quiescent', 'stopped-while-backlog'])
     yield Case('subwf/root', _c11_case('subwf', shapes.SUBWF, k, ms,
                                        wf_name='parent'),
                needed=['stopped', 'quiescent', 'has-subtree',
